@@ -297,7 +297,11 @@ def _nodes(draw, depth, clean, xhtml, budget):
         elif k <= 7:
             items.append({'t': draw(hostile_texts(clean))})
         elif k == 8:
-            items.append({'br': draw(hostile_texts(clean))} if xhtml else {'t': draw(hostile_texts(clean))})
+            if xhtml and draw(st.integers(0, 4)) == 0:
+                # text with the line ends of another platform (CR LF, lone CR): every character is data
+                items.append({'br': draw(st.sampled_from(['one\r\ntwo', 'a\r\n', '\r\nb', 'x\r\n\r\ny', 'p\rq\nr', '\r\n']))})
+            else:
+                items.append({'br': draw(hostile_texts(clean))} if xhtml else {'t': draw(hostile_texts(clean))})
         elif k == 9:
             items.append({'lit': draw(st.integers(0, len(LITERALS_XHTML if xhtml else LITERALS_XML) - 1))})
         elif k == 10:
